@@ -246,3 +246,92 @@ Proof.
   { intros h. do 5 (destruct h as [|h]; [reflexivity|]). destruct h; reflexivity. }
   vm_compute. repeat split; discriminate.
 Qed.
+
+(* ---- the model regenerated from the source IS the proved model ------------------
+   Sim/Gen_Sim.v is regenerated on every run by translator/py2gallina_sim.py from
+   simulator.py of the tree under test; Sim/GenAgree.v proves the generated methods
+   equal to the functions of Sim/Model.v the theorems above are about.  For C03 the
+   relevant ones are _start_impl (the refusals in their order, the bound in the
+   past, the capping of the bound at the replication end with the inclusive flag,
+   the bound stored only after the checks), the run loop _run (three-way stop test
+   against the bound, ENDING only when the bound reached the end) and _step_impl
+   (no event later than the end).  [start_prepared s bz i] is the state _start_impl
+   leaves before the woken worker runs. ---- *)
+From PV Require Import Sim.Gen_Sim Sim.GenAgree.
+
+Theorem C03_generated_model_is_the_proved_model :
+  (forall w s t i, (rs s <> RNotInit -> worker s <> WNone) ->
+     gen_Simulator__start_impl w s t i =
+     if start_checks s then
+       match t with
+       | TNaN => GExc EDSOL w s
+       | TNum bz => if bz <? clock s then GExc EDSOL w s else GRet RNone true (start_prepared s bz i)
+       end
+     else GExc EDSOL w s) /\
+  (forall fuel p s t i, (rs s <> RNotInit -> worker s <> WNone) ->
+     gen_settle fuel p (gen_Simulator__start_impl false s t i) = do_start fuel p s t i) /\
+  (forall p fuel w s, rep s <> None -> gen_DEVSSimulator__run fuel p w s = GRet RNone w (run_loop fuel p s)) /\
+  (forall p w s, (rs s <> RNotInit -> rep s <> None) -> gen_Simulator_step p w s = gres_of w (do_step p s)) /\
+  (forall fuel p s c, sim_wf s -> gen_do_cmd fuel p s c = do_cmd fuel p s c) /\
+  (forall fuel p cs s, sim_wf s -> gen_run_cmds fuel p s cs = run_cmds fuel p s cs).
+Proof.
+  exact (conj gen_start_impl_eq (conj settle_start_eq (conj (fun p fuel w s => gen_run_eq p fuel w s)
+          (conj gen_step_eq (conj gen_do_cmd_eq gen_run_cmds_eq))))).
+Qed.
+Print Assumptions C03_generated_model_is_the_proved_model.
+
+(* the bounded-run theorem over the generated _start_impl followed by the woken worker *)
+Theorem C03_generated_bounded_run_exact : forall p fuel s bz i,
+  Inv s -> Acct s -> worker s = WAlive -> calm (strat s) p ->
+  start_checks s = true -> clock s <= bz ->
+  let s' := fst (gen_settle fuel p (gen_Simulator__start_impl false s (TNum bz) i)) in
+  let b := fst (clamp s bz i) in let ic := snd (clamp s bz i) in
+  flag s' = false ->
+  exists evs newc,
+    executed s' = rev evs ++ executed s
+    /\ created s' = created s ++ newc
+    /\ clock s' = b
+    /\ (forall e, In e evs -> In e (pend s) \/ In e newc)
+    /\ (forall e, In e (pend s) \/ In e newc ->
+          (In e evs <-> (~ In e (cancelled s') /\ (if ic then ev_time e <= b else ev_time e < b))))
+    /\ (forall e, In e (pend s') -> if ic then b < ev_time e else b <= ev_time e).
+Proof.
+  intros p fuel s bz i HI HA Hw. rewrite settle_start_eq by (intros _; rewrite Hw; discriminate).
+  apply bounded_run_exact; assumption.
+Qed.
+Print Assumptions C03_generated_bounded_run_exact.
+
+Theorem C03_generated_never_past_end : forall p fuel s c,
+  sim_wf s -> Inv s ->
+  exists new, trace (fst (gen_do_cmd fuel p s c)) = new ++ trace s
+              /\ Forall (fun ec => snd ec <= end_time s) new.
+Proof. intros p fuel s c Hwf. rewrite gen_do_cmd_eq by exact Hwf. apply never_past_end. Qed.
+Print Assumptions C03_generated_never_past_end.
+
+Theorem C03_generated_resumable : forall p fuel s bz i,
+  worker s = WAlive -> start_checks s = true -> clock s <= bz -> bz < end_time s ->
+  let s' := fst (gen_settle fuel p (gen_Simulator__start_impl false s (TNum bz) i)) in
+  ps s' = PStarted
+  /\ (running s' = false /\ (ps s' = PInit \/ ps s' = PStarted) /\ worker s' = WAlive)
+  /\ clock s' <= bz /\ start_checks s' = true.
+Proof.
+  intros p fuel s bz i Hw. rewrite settle_start_eq by (intros _; rewrite Hw; discriminate).
+  apply resumable; assumption.
+Qed.
+Print Assumptions C03_generated_resumable.
+
+(* a refused start / run_up_to leaves the simulator object -- bound included -- as it was *)
+Theorem C03_generated_refused_start_changes_nothing : forall w s t i k w' s',
+  (rs s <> RNotInit -> worker s <> WNone) -> gen_Simulator__start_impl w s t i = GExc k w' s' -> s' = s /\ k = EDSOL.
+Proof.
+  intros w s t i k w' s' Hw. rewrite gen_start_impl_eq by exact Hw.
+  destruct (start_checks s); [destruct t as [bz|]; [destruct (bz <? clock s)|]|]; intros H; inversion H; auto.
+Qed.
+Print Assumptions C03_generated_refused_start_changes_nothing.
+
+(* the bounded example, run through the generated commands *)
+Example ex_generated_bounded :
+  fst (gen_settle 100 ex_prog' (gen_Simulator__start_impl false ex_s0 (TNum 12) false))
+  = fst (do_start 100 ex_prog' ex_s0 (TNum 12) false)
+  /\ fst (gen_run_cmds 100 ex_prog ex_s0 ex_cuts) = ex_s1.
+Proof. split; vm_compute; reflexivity. Qed.
